@@ -524,5 +524,57 @@ theorem goS_equiv : ∀ (M : MetaMat Rat) (tr : Bool), Equiv (M.goSQ tr) (M.goQ 
         simp only [Bool.not_true, fits, Bool.and_eq_true] at hv
         simp [hv.1.1, hv.1.2, hv.2]) (fun v hv => hv)
 
+
+/-- `flatten ∘ unflatten = id`: filling the compatible Tuple/PowerVector from a flat array and reading it back -/
+theorem flatten_unflatten : ∀ (M : MetaMat Rat) (s : Bool) (v : Array Rat),
+    v.size = (if s then M.rows else M.cols) → (M.unflatten s v).flatten = v
+  | csr _, _, _, _ => by simp [unflatten, MetaVec.flatten]
+  | bcsr _, _, _, _ => by simp [unflatten, MetaVec.flatten]
+  | dense _, _, _, _ => by simp [unflatten, MetaVec.flatten]
+  | cscr _, _, _, _ => by simp [unflatten, MetaVec.flatten]
+  | banded _, _, _, _ => by simp [unflatten, MetaVec.flatten]
+  | row f r, true, v, h => by
+    simp only [unflatten]
+    exact flatten_unflatten f true v (by simpa [rows] using h)
+  | row f r, false, v, h => by
+    simp only [Bool.false_eq_true, if_false, cols] at h
+    simp only [unflatten, MetaVec.flatten]
+    rw [flatten_unflatten f false _ (by simpa using slice_size v 0 f.cols (by omega)),
+      flatten_unflatten r false _ (by simpa using slice_size v f.cols r.cols (by omega))]
+    exact slice_append_slice v f.cols r.cols h
+  | col f r, false, v, h => by
+    simp only [unflatten]
+    exact flatten_unflatten f false v (by simpa [cols] using h)
+  | col f r, true, v, h => by
+    simp only [if_true, rows] at h
+    simp only [unflatten, MetaVec.flatten]
+    rw [flatten_unflatten f true _ (by simpa using slice_size v 0 f.rows (by omega)),
+      flatten_unflatten r true _ (by simpa using slice_size v f.rows r.rows (by omega))]
+    exact slice_append_slice v f.rows r.rows h
+  | diag f r, true, v, h => by
+    simp only [if_true, rows] at h
+    simp only [unflatten, MetaVec.flatten]
+    rw [flatten_unflatten f true _ (by simpa using slice_size v 0 f.rows (by omega)),
+      flatten_unflatten r true _ (by simpa using slice_size v f.rows r.rows (by omega))]
+    exact slice_append_slice v f.rows r.rows h
+  | diag f r, false, v, h => by
+    simp only [Bool.false_eq_true, if_false, cols] at h
+    simp only [unflatten, MetaVec.flatten]
+    rw [flatten_unflatten f false _ (by simpa using slice_size v 0 f.cols (by omega)),
+      flatten_unflatten r false _ (by simpa using slice_size v f.cols r.cols (by omega))]
+    exact slice_append_slice v f.cols r.cols h
+  | saddle a b d, true, v, h => by
+    simp only [if_true, rows] at h
+    simp only [unflatten, MetaVec.flatten]
+    rw [flatten_unflatten a true _ (by simpa using slice_size v 0 a.rows (by omega)),
+      flatten_unflatten d true _ (by simpa using slice_size v a.rows d.rows (by omega))]
+    exact slice_append_slice v a.rows d.rows h
+  | saddle a b d, false, v, h => by
+    simp only [Bool.false_eq_true, if_false, cols] at h
+    simp only [unflatten, MetaVec.flatten]
+    rw [flatten_unflatten a false _ (by simpa using slice_size v 0 a.cols (by omega)),
+      flatten_unflatten b false _ (by simpa using slice_size v a.cols b.cols (by omega))]
+    exact slice_append_slice v a.cols b.cols h
+
 end MetaMat
 end FeatModel.LA
